@@ -261,6 +261,16 @@ impl Collector {
     }
 }
 
+#[cfg(feature = "verif-hooks")]
+impl Collector {
+    /// Forwards to the private `repository_path`.
+    pub fn verif_repository_path(
+        &self, rpki_notify: &uri::Https
+    ) -> Result<PathBuf, Fatal> {
+        self.repository_path(rpki_notify)
+    }
+}
+
 impl Collector {
     /// Returns the path for a repository.
     fn repository_path(
